@@ -2,6 +2,7 @@ package notation
 
 import (
 	"fmt"
+	"math"
 	"reflect"
 	"strconv"
 	"strings"
@@ -595,9 +596,88 @@ func execAssocPair(c assocPairCase, _ core.Source) (res core.Result) {
 func TestC20(t *testing.T) {
 	r := core.Begin(t, "C20")
 	defer r.End()
+	core.DFS(r, core.Check[mapFormCase]{Name: "map-form-keys", Gen: func(s core.Source) mapFormCase {
+		return mapFormCase{Kind: core.Pick(s, []string{"Catalog", "Map"}, "kind"), Keys: core.Pick(s, []string{"float64", "any", "pointer"}, "keys"), Mask: s.Choose(64, "mask"), Note: core.Pick(s, []string{"absent", "first", "last"}, "notation")}
+	}, Exec: execMapForm, NoJournal: true}, 0)
 	core.Rapid(r, core.Check[ucCase]{Name: "constructors", Gen: genUC, Exec: execUC}, r.N(6000, 40000))
 	core.DFS(r, core.Check[assocPairCase]{Name: "associations", NoJournal: true,
 		Gen: func(s core.Source) assocPairCase {
 			return assocPairCase{K: core.Pick(s, ucElems, "k"), V: core.Pick(s, ucElems, "v"), KI: s.Choose(4, "ki"), VI: s.Choose(6, "vi"), N: core.Pick(s, []string{"absent", "first", "last"}, "n")}
 		}, Exec: execAssocPair}, 0)
+}
+
+// ---------------------------------------------------------------- the Go-map form with keys that are hard to look up
+
+// Catalog[K, V](goMap) and Map[K, V](goMap) hold what the class-level MakeFromMap holds: every entry of the Go
+// map, also one whose key is not equal to itself (NaN), keys that only the collator calls equal (pointers to
+// equal numbers, int8(1) next to int64(1) under K = any) each with its own value.
+type mapFormCase struct {
+	Kind string `json:"kind"` // Catalog Map
+	Keys string `json:"keys"` // float64 any pointer
+	Mask int    `json:"mask"` // which keys of the pool are present
+	Note string `json:"notation"`
+}
+
+var mapFormPointers = func() []*int {
+	a, b, c := 1, 1, 2
+	return []*int{&a, &b, &c}
+}()
+
+func execMapForm(c mapFormCase, _ core.Source) core.Result {
+	switch c.Keys {
+	case "float64":
+		return mapForm(c, []float64{math.NaN(), 0, 2.5, 1.5, math.Inf(-1), math.Float64frombits(0x7ff8000000000002)},
+			func(k float64) string { return fmt.Sprintf("%v#%x", k, math.Float64bits(k)) })
+	case "pointer":
+		return mapForm(c, mapFormPointers, func(k *int) string { return fmt.Sprintf("%p", k) })
+	}
+	return mapForm(c, []any{int8(1), int64(1), "1", math.NaN(), 1.0, uint8(1)}, func(k any) string {
+		if f, ok := k.(float64); ok {
+			return fmt.Sprintf("float64#%x", math.Float64bits(f))
+		}
+		return fmt.Sprintf("%T(%v)", k, k)
+	})
+}
+
+func mapForm[K comparable](c mapFormCase, pool []K, ident func(K) string) (res core.Result) {
+	n := model.Notation()
+	gomap := map[K]int64{}
+	want := map[string]int{}
+	for i, k := range pool {
+		if c.Mask&(1<<i) != 0 {
+			gomap[k] = int64(10 + i)
+			want[fmt.Sprintf("%s:%d", ident(k), 10+i)]++
+		}
+	}
+	args := withNotation(c.Note, any(gomap))
+	type view interface {
+		col.Sequential[col.AssociationLike[K, int64]]
+	}
+	var got, class view
+	desc := fmt.Sprintf("%s[%s, int64](Go map with the entries %v, notation %s)", c.Kind, c.Keys, want, c.Note)
+	if p, payload := lib.Call(func() {
+		if c.Kind == "Catalog" {
+			got, class = mod.Catalog[K, int64](args...), col.Catalog[K, int64](n).MakeFromMap(gomap)
+		} else {
+			got, class = mod.Map[K, int64](args...), col.Map[K, int64](n).MakeFromMap(gomap)
+		}
+	}); p {
+		res.Violation = core.Violate("C20/"+c.Kind+"/map/panicked", "%s panicked: %s", desc, lib.Short(payload))
+		return
+	}
+	count := func(v view) map[string]int {
+		out := map[string]int{}
+		for _, a := range v.AsArray() {
+			out[fmt.Sprintf("%s:%d", ident(a.GetKey()), a.GetValue())]++
+		}
+		return out
+	}
+	g, w := count(got), count(class)
+	if fmt.Sprint(g) != fmt.Sprint(w) || fmt.Sprint(w) != fmt.Sprint(want) {
+		res.Violation = core.Violate("C20/"+c.Kind+"/map/contents", "%s holds %v, the class-level MakeFromMap holds %v, the Go map %v", desc, g, w, want)
+		return
+	}
+	res.NonTrivial = len(want) > 0
+	res.Classes = append(res.Classes, "kind-"+c.Kind, "keys-"+c.Keys)
+	return
 }
